@@ -1,6 +1,20 @@
 """Single table of claimed checks; bin/mkmanifest renders MANIFEST.json from it."""
 
 CHECKS = {
+    "C07": dict(
+        level="exploration",
+        technique="TLA+ generator GenClos (state = history of closure calls / owner assignments over module-level, per-activation and nested closures; BFS = all histories to a bound, -simulate = long random ones); TLA+ reference semantics MSLang (cells, capture of free variables by cell identity, modify) evaluated by TLC; replay of every history on the real binary; TLC judge CheckLang",
+        text="Exhaustive exploration of all operation histories up to the bound (quick 2, thorough 3) over 43 operations plus seeded long histories (8/12), each executed for real and compared line by line with the specification's evaluation.",
+        note="Trusts MSLang's closure semantics as the reading of the property; histories are generated from one fixed family of closure templates (module, function x2 instances, nested function; reader / modify-writer / local-writer; direct / via shadowing caller / via plain caller).",
+        design="5/C07",
+    ),
+    "C15": dict(
+        level="translation_validation",
+        technique="TLA+ generator GenOrder (typed prefix-token derivations of expression trees with logging leaves; BFS + -simulate); TLA+ reference semantics MSLang gives the prescribed log; replay on the real binary via run and compile+execute; TLC judge CheckLang",
+        text="Per-program comparison of the evaluation log prescribed by the specification (strict left-to-right, exactly once, short-circuit) with the log printed by the compiled program, for all trees of operand depth <= 1, all/sampled depth 2 and simulated deeper trees.",
+        note="Trusts MSLang expression semantics and the renderer. Map literals and method calls on objects are covered by C13/C08 generators, not here.",
+        design="5/C15",
+    ),
     "C01": dict(
         level="translation_validation",
         technique="TLA+ reference semantics MSLang (big-step, cells/frames/closures, checked 32-bit arithmetic, failure classes) evaluated by TLC on every program AST enumerated by the TLA+ generator GenCtl (BFS over nesting paths); the rendering of each program is executed by the real binary via `run` and `compile`+`execute`; TLC spec CheckLang decides agreement of output lines, exit status and failure class",
